@@ -161,11 +161,13 @@ func reachableAvoiding(f *ssa.Function, from *ssa.BasicBlock, cut []edge, avoid 
 			}
 		}
 	}
-	res := reachable(f, from, c2)
+	if from == nil && len(f.Blocks) > 0 {
+		from = f.Blocks[0]
+	}
 	if from != nil && avoid[from] {
 		return map[*ssa.BasicBlock]bool{}
 	}
-	return res
+	return reachable(f, from, c2)
 }
 
 func c02Middleware(p *Program, r *Report) {
